@@ -107,6 +107,24 @@ CheckExport(S, id, o) ==
          /\ Say(\A i \in Desc(S, a.start) : <<Names(i), S.dat[i]>> \in SeqSet(o.r.v.names), id, "C17",
                 "export.names:" \o a.fmt, why))
 
+(* C07: Tree.copy / Node.copy / copy_to a new tree: the copy is the whole (sub)forest, in order, same data objects,
+   data_ids and kinds, of the source's class, and the source is untouched *)
+RECURSIVE FullForest(_, _)
+FullForest(S, seq) == [i \in 1..Len(seq) |-> <<seq[i], FullForest(S, S.kids[seq[i]])>>]
+CheckCopy(S, id, o) ==
+   LET a == o.a why == ToString(o.a)
+       exp == IF a.p = 0 \/ ~a.self THEN FullForest(S, KidsOf(S, a.p)) ELSE << <<a.p, FullForest(S, S.kids[a.p])>> >>
+   IN
+   /\ Say(o.r.s = "ok", id, "C07", "copy.status:" \o a.via \o ":" \o o.r.s, why)
+   /\ (o.r.s = "ok" =>
+         /\ Say(o.r.v.forest = exp, id, "C07", "copy.shape_or_order:" \o a.via, why)
+         /\ Say(o.r.v.faithful, id, "C07", "copy.data_or_id_differs:" \o a.via, why)
+         /\ Say(o.r.v.kinds, id, "C07", "copy.kind_differs:" \o a.via, why)
+         /\ Say(o.r.v.cls, id, "C07", "copy.result_class:" \o a.via, why)
+         /\ Say(o.r.v.selfdup = <<>>, id, "C07", "copy.node_twice:" \o a.via, why)
+         /\ Say(o.r.v.src_same, id, "C07", "copy.source_changed:" \o a.via, why)
+         /\ Say(o.r.v.independent, id, "C07", "copy.not_independent:" \o a.via, why))
+
 CheckFilter(S, id, o) ==
    LET a == o.a why == ToString([p |-> a.p, v |-> a.v, form |-> a.form])
        K == FilterKeep(S, a.p, a.v)
@@ -138,6 +156,7 @@ CheckFilter(S, id, o) ==
 CheckRec(e) == LET S == LoadState(e.st) IN
    \A j \in 1..Len(e.obs) : IF e.obs[j].q \in {"filter_inplace", "filter_copy"} THEN CheckFilter(S, e.id, e.obs[j])
                               ELSE IF e.obs[j].q = "export" THEN CheckExport(S, e.id, e.obs[j])
+                              ELSE IF e.obs[j].q = "copy" THEN CheckCopy(S, e.id, e.obs[j])
                               ELSE CheckObs(S, e.id, e.obs[j])
 NObs == FoldLeft(LAMBDA acc, e : acc + Len(e.obs), 0, Recs)
 
